@@ -57,15 +57,17 @@ contract("filter_expressions:RootFilterQuery.evaluate",
 _TYPES = "seq(get(context.env.function_extensions, str_of(self.name)).arg_types)"
 _VALS = "map_eval_expr(seq(self.args), context, len(self.args))"
 
-contract("filter_expressions:FunctionExtension.evaluate", heavy=True,
-    requires=EV_REQ, unfold=["wf_call_e", "eval_call", "wf_ctx", "wf_env", "wf_registry", "wf_func", "conv_arg"],
+contract("filter_expressions:FunctionExtension.evaluate",
+    requires=EV_REQ, unfold=["wf_call_e", "eval_call", "wf_ctx", "wf_env", "wf_registry", "wf_func", "conv_arg", "all_wf_nodes", "value_typed", "logical_typed", "nodes_typed", "is_json"],
+    hide=["value_typed", "logical_typed", "nodes_typed", "all_wf_nodes"], depth=4,
     lemmas=[("map_eval_expr_nth", {"exprs": "seq(self.args)", "ctx": "context", "k": "len(self.args)"}),
             ("conv_vals_nth", {"types": _TYPES, "vals": _VALS, "k": "len(self.args)"})],
     ensures=EV_ENS, raises=["JSONPathError"], props=["C10", "C13"])
 
 contract("filter_expressions:FunctionExtension._unpack_node_lists",
     requires=["wf_func(func)", "is_arr(args)", "len(args) == len(func.arg_types)",
-              "all(implies(is_nodelist(seq(args)[j]), all_wf_nodes(seq(seq(args)[j])) and implies(seq(func.arg_types)[j] == ExpressionType.VALUE, len(seq(args)[j]) <= 1)) for j in range(len(args)))"],
+              "all(implies(is_nodelist(seq(args)[j]), all_wf_nodes(seq(seq(args)[j]))) for j in range(len(args)))",
+              "all(implies(is_nodelist(seq(args)[j]) and seq(func.arg_types)[j] == ExpressionType.VALUE, len(seq(args)[j]) <= 1) for j in range(len(args)))"],
     unfold=["wf_func", "conv_arg", "conv_vals"],
     ensures=["result == mk_list(conv_vals(seq(func.arg_types), seq(args), len(args)))"],
     loops={1: ["is_arr(_args)", "_args == mk_list(conv_vals(seq(func.arg_types), seq(args), i1))"]},
